@@ -1431,3 +1431,31 @@ Lemma retry_bounded_example :
   marks (run cur_plain (init ms) (sched_lag 7 (length ms))) = (216, 283, 6) /\
   bound_syslines 64 5 = 769 /\ bound_lines 64 5 3 7 = 2333 /\ bound_blocks 64 5 7 = 3895.
 Proof. vm_compute. repeat split; reflexivity. Qed.
+
+(* ------------------------------------------------------------------ year-less notations: F9c *)
+Lemma find_all_from c ms : forall s,
+  lenN (syslines s) <= hs s ->
+  let s' := fold_left (fun s m => do_find c s false m) ms s in
+  syslines s' = syslines s ++ ms /\ lenN (syslines s') <= hs s'.
+Proof.
+  induction ms as [|m ms IH]; intros s Hs; cbv zeta; cbn [fold_left].
+  - rewrite app_nil_r. auto.
+  - pose proof (read_lines_grows c (mread false m) s) as (_ & _ & G). cbv zeta in G.
+    destruct G as (I0 & _). destruct I0 as (I1 & _ & _ & I4 & _).
+    assert (syslines (do_find c s false m) = syslines s ++ [m] /\
+            lenN (syslines (do_find c s false m)) <= hs (do_find c s false m)) as (A & B).
+    { unfold do_find. cbn [store_msg syslines hs]. rewrite I1. split; auto. lia. }
+    destruct (IH (do_find c s false m) B) as (C & D). cbv zeta in C, D.
+    split.
+    + rewrite C, A, <- app_assoc. reflexivity.
+    + exact D.
+Qed.
+
+(* every message of the file is stored at the same time: the mark is the number of messages *)
+Theorem yearless_keeps_all c ms :
+  syslines (find_all c ms) = ms /\ lenN ms <= hs (find_all c ms).
+Proof.
+  unfold find_all. destruct (find_all_from c ms (init ms)) as (A & B).
+  - cbn. lia.
+  - cbv zeta in A, B. cbn [init syslines app] in A. rewrite A in B. auto.
+Qed.
